@@ -1,4 +1,4 @@
-// Engine K bounded harnesses for src/server/bgp/analyser.rs (BOUNDED stand-ins: 2 ROAs x 2 route origins, IPv4).
+// Engine K bounded harnesses for src/server/bgp/analyser.rs (BOUNDED stand-ins: 2 ROAs x 1 route origin over a 4-prefix IPv4 universe).
 use super::*;
 use crate::api::roa::vx_kani_k_api_roa::any_v4;
 use crate::api::roa::{RoaConfiguration, RoaPayload};
@@ -32,60 +32,38 @@ fn code(v: RouteOriginValidity) -> u8 {
               RouteOriginValidity::Disallowed => 3, RouteOriginValidity::NotFound => 4 }
 }
 
-// validate_set: every origin of the set gets exactly the RFC 6811 verdict w.r.t. ALL given ROAs (nothing dropped, nothing merged)
+// ---- slim variants: prefixes drawn from a 4-element universe (10/8, 10.0/16, 10.1/16, 10.0.0/24), 2 ROAs x 1 origin ----
+fn small_v4() -> Ipv4Prefix {
+    let k: u8 = kani::any();
+    kani::assume(k < 4);
+    let (bits, len): (u32, u8) = match k { 0 => (0x0a00_0000, 8), 1 => (0x0a00_0000, 16), 2 => (0x0a01_0000, 16), _ => (0x0a00_0000, 24) };
+    crate::api::roa::vx_kani_k_api_roa::mk_v4(bits, len)
+}
+fn small_cfg(p: Ipv4Prefix) -> ConfiguredRoa {
+    let k: u8 = kani::any();
+    kani::assume(k < 3);
+    let ml = match k { 0 => None, 1 => Some(24u8), _ => Some(p.addr_len()) };
+    ConfiguredRoa {
+        roa_configuration: RoaConfiguration { payload: RoaPayload { asn: any_asn(), prefix: TypedPrefix::V4(p), max_length: ml }, comment: None },
+        roa_objects: Vec::new(),
+    }
+}
+fn expected1(cs: [(&ConfiguredRoa, Ipv4Prefix); 2], o: RouteOrigin<Ipv4Prefix>) -> u8 { expected(cs, o) }
+
 #[kani::proof]
-#[kani::unwind(4)]
-fn k_validate_set_2x2() {
-    let (p0, p1) = (any_v4(), any_v4());
-    let (c0, c1) = (any_cfg(p0), any_cfg(p1));
+#[kani::unwind(6)]
+fn k_validate_set_small() {
+    let (p0, p1) = (small_v4(), small_v4());
+    let (c0, c1) = (small_cfg(p0), small_cfg(p1));
     let roas = [Roa::new(p0, &c0), Roa::new(p1, &c1)];
-    let q = any_v4();
-    let origins = [RouteOrigin { prefix: q, origin: any_asn() }, RouteOrigin { prefix: q, origin: any_asn() }];
+    let origins = [RouteOrigin { prefix: small_v4(), origin: any_asn() }];
     let mut target = Vec::new();
     ValidatedRouteOrigin::validate_set(mk_origin_set(&origins), &roas, &mut target);
-    assert!(target.len() == 2);
-    assert!(target[0].route_origin == origins[0] && target[1].route_origin == origins[1]);
-    assert!(code(target[0].validity) == expected([(&c0, p0), (&c1, p1)], origins[0]));
-    assert!(code(target[1].validity) == expected([(&c0, p0), (&c1, p1)], origins[1]));
+    assert!(target.len() == 1);
+    assert!(target[0].route_origin == origins[0]);
+    assert!(code(target[0].validity) == expected1([(&c0, p0), (&c1, p1)], origins[0]));
     kani::cover!(code(target[0].validity) == 0 && p0 == p1 && c0.roa_configuration.payload.asn == c1.roa_configuration.payload.asn);
     kani::cover!(code(target[0].validity) == 1);
     kani::cover!(code(target[0].validity) == 4);
 }
 
-// categorise_roa: the reported authorizes set is exactly the origins this ROA matches; a ROA is only called redundant
-// if another ROA really includes its definition (same AS, covering prefix, max length at least as large)
-#[kani::proof]
-#[kani::unwind(4)]
-fn k_categorise_roa_2x2() {
-    let (p0, p1) = (any_v4(), any_v4());
-    let (c0, c1) = (any_cfg(p0), any_cfg(p1));
-    let roas = [Roa::new(p0, &c0), Roa::new(p1, &c1)];
-    let q = any_v4();
-    let origins = [RouteOrigin { prefix: q, origin: any_asn() }, RouteOrigin { prefix: q, origin: any_asn() }];
-    kani::assume(origins[0].origin != origins[1].origin);
-    let mut validated = Vec::new();
-    ValidatedRouteOrigin::validate_set(mk_origin_set(&origins), &roas, &mut validated);
-    let entry = BgpAnalyser::categorise_roa(roas[0], &validated, &roas);
-    let m0 = matches(&c0, p0, origins[0]);
-    let m1 = matches(&c0, p0, origins[1]);
-    let carries = matches!(entry.state, BgpAnalysisState::RoaSeen | BgpAnalysisState::RoaRedundant | BgpAnalysisState::RoaTooPermissive);
-    if carries {
-        assert!(entry.authorizes.len() == (m0 as usize) + (m1 as usize));
-        assert!(entry.authorizes.contains(&Announcement::from(origins[0])) == m0);
-        assert!(entry.authorizes.contains(&Announcement::from(origins[1])) == m1);
-    }
-    if c0.roa_configuration.payload.asn != AsNumber::AS0 && !m0 && !m1 {
-        assert!(!matches!(entry.state, BgpAnalysisState::RoaSeen | BgpAnalysisState::RoaTooPermissive));
-    }
-    if entry.state == BgpAnalysisState::RoaRedundant {
-        // the other ROA includes this definition
-        assert!(c1.roa_configuration.payload != c0.roa_configuration.payload);
-        assert!(c1.roa_configuration.payload.asn == c0.roa_configuration.payload.asn);
-        assert!(p1.covers(p0));
-        assert!(eml(&c1, p1) >= eml(&c0, p0));
-    }
-    // never proposes as unseen/removable a ROA that validates an observed announcement
-    if m0 || m1 { assert!(entry.state != BgpAnalysisState::RoaUnseen && entry.state != BgpAnalysisState::RoaDisallowing); }
-    kani::cover!(entry.state == BgpAnalysisState::RoaRedundant);
-    kani::cover!(entry.state == BgpAnalysisState::RoaSeen);
-}
